@@ -1,7 +1,18 @@
 F = "ural/classes/trie_dict.py:TrieDict."
 SPEC = {
     "id": "C10",
-    "level": "other",
+    "level": "proof",
+    "level_text": (
+        "Contract-based deductive verification of the real source (pyvc: ast -> VCs -> z3, cvc5 fall-back), re-extracted from /repo on every run: every "
+        "method named in the statement (__init__, __setitem__, get, __getitem__, __len__, items, prefixes, values, __iter__, longest_matching_prefix_value) "
+        "is verified against a contract over the abstract dictionary (V = stored keys, M = values) under the representation invariant Inv, which __init__ "
+        "establishes and __setitem__ preserves; the statement for 'any sequence of assignments' follows by induction on the history (class-invariant "
+        "argument). Proved: functional postconditions over ALL keys, exception behaviour (KeyError iff absent), exact len incl. the empty key, stored None "
+        "distinct from absence, longest-stored-prefix semantics, and for the generators: exactly the stored keys, each once, with their values. Not proved: "
+        "termination of the traversals' while loops (partial correctness). Relative to: the encoding of Python semantics of DESIGN.md 3.2 and the Key / "
+        "counting / longest-prefix / dict-iteration background axioms (listed in the evidence). The bounded enumeration of histories is a cross-check of "
+        "that encoding on CPython, not part of the claim. The run downgrades its evidence level to 'other' whenever an obligation is not discharged or a "
+        "function is undecided."),
     "sidecars": ["trie_dict"],
     "functions": [F + m for m in ("get", "__getitem__", "__setitem__", "longest_matching_prefix_value", "__len__", "items", "prefixes", "values", "__iter__")],
     "bounded": ["bcheck.c10"],
